@@ -50,6 +50,9 @@ CLAIMS["C14"] = ("must-reach (post-dominance restricted to success exits) of eve
 CLAIMS["C08"] = ("must-reach of the digest update after graph.add in the admission closure + must-pass-through in updateState/(*dag).add + shared write-transaction handle + OnRollback/loadState option and argument checks + ownership of tree mutators and bucket writers + lock-dominance on treeStore + same-transaction recompute/replace ordering of the repair",
   "Static decision that graph, digests, head and counters are written in one transaction, that a rollback or restart overwrites the in-memory state from disk, that the trees have a single writer discipline, and that the repair recomputes and replaces a page inside one write transaction only on a detected difference. Exhaustive over the current source.",
   "Trusts go/ssa and go-stoabs; numerical equality of digests with the stored set is not decided.")
+CLAIMS["C18"] = ("must-pass-through on did:web Resolve/DIDToURL and the deactivation gates + EFFECT (transitive-callee package classification) for did:jwk/did:key purity and local-first resolution + constant/argument checks (https literal, exact id equality, chain order, chain continues only on ErrNotFound)",
+  "Static decision that did:web documents are fetched only over https from the host the DID encodes and accepted only with an identical id, that did:jwk/did:key resolution is effect-free and id-bound, that managed DIDs resolve locally first without network reachability, and that deactivated DIDs resolve only when allowed. Exhaustive over the current source.",
+  "Trusts go/ssa, net/url parsing; the DID↔URL round-trip law and redirects are not decided.")
 PENDING = {}
 
 def main():
